@@ -1492,3 +1492,18 @@ func ens_ExpectPacket(err error) bool {
 
 // (what ExpectPacket may modify is not specified: it hands the decoded packet to the caller through reflection)
 //@ noframe (*Protocol).ExpectPacket
+
+// ---------- C01: a new endpoint ----------
+// The reading half and the writing half of an endpoint keep SEPARATE settings, both starting at the default chunk size
+// 128: our own announcement changes what we write, the peer's what we read, never the other way round.
+//@ requires NewProtocol
+func req_NewProtocol(rw io.ReadWriter) bool { return rw != nil }
+
+//@ ensures NewProtocol C01.new.separate-settings
+func ens_NewProtocol(ret0 *Protocol) bool {
+	if ret0 == nil || ret0.input.opt == nil || ret0.output.opt == nil {
+		return false
+	}
+	return ret0.input.opt != ret0.output.opt && ret0.input.opt.chunkSize == 128 && ret0.output.opt.chunkSize == 128 &&
+		ret0.r != nil && ret0.w != nil && ret0.input.chunks != nil && ret0.input.transactions != nil
+}
